@@ -6,7 +6,7 @@ import ast
 
 from ..astutil import cond_terms, requires_flag, size_dependent
 from ..cfg import CFG
-from ..core import AnalysisError, const_value, walk_own
+from ..core import callee_is, AnalysisError, const_value, walk_own
 from ..tutil import lin, np_call
 from ..defuse import MUTATORS, DefUse, Terms, show, walk_term
 from ..defuse import key as tkey
@@ -356,7 +356,7 @@ def _models_sorted(ctx):
     f = prog.func("mokapot.brew.brew")
     cfg = CFG(f.node)
     sorts = [n for n in ast.walk(f.node) if isinstance(n, ast.Call)
-             and ast.unparse(n.func) == "fitted.sort"]
+             and callee_is(prog, f, n, "fitted.sort")]
     unzips = [n for n in ast.walk(f.node) if isinstance(n, ast.Call)
               and ast.unparse(n) == "zip(*fitted)"]
     ctx.require(len(unzips) == 1, f"{f.qual}: zip(*fitted) not found")
@@ -441,7 +441,7 @@ def _empty_subset(ctx):
     f = prog.func("mokapot.brew._predict")
     cfg = CFG(f.node)
     calls = [n for n in ast.walk(f.node) if isinstance(n, ast.Call)
-             and ast.unparse(n.func) == "_create_psms"]
+             and callee_is(prog, f, n, "_create_psms")]
     ctx.require(len(calls) == 1, f"{f.qual}: _create_psms call not found")
     call = calls[0]
     chunk_loops = [lp for lp in cfg.enclosing_all(call, (ast.For,))
@@ -496,7 +496,7 @@ def _calibration_outside_chunk_loop(ctx):
     f = prog.func("mokapot.brew._predict")
     cfg = CFG(f.node)
     calls = [n for n in ast.walk(f.node) if isinstance(n, ast.Call)
-             and ast.unparse(n.func) == "calibrate_scores"]
+             and callee_is(prog, f, n, "calibrate_scores")]
     ctx.require(len(calls) == 1, f"{f.qual}: calibrate_scores not found")
     loops = cfg.enclosing_all(calls[0], (ast.For, ast.While))
     bad = [lp for lp in loops if "file_iterator" in ast.unparse(
@@ -532,18 +532,30 @@ def _chunk_constants(ctx):
     ctx.floor("C05e-constants", len(consts), 6)
     n_uses = 0
     for mod in prog.modules.values():
-        imported = {loc for loc, tgt in mod.imports.items()
-                    if tgt.startswith("mokapot.constants.")
-                    and tgt.rsplit(".", 1)[1] in consts}
-        if not imported:
+        if mod.name == "mokapot.constants":
+            continue
+        if not any(tgt.startswith("mokapot.constants")
+                   for tgt in mod.imports.values()):
             continue
         parents = {}
         for n in ast.walk(mod.tree):
             for ch in ast.iter_child_nodes(n):
                 parents[id(ch)] = n
         for n in ast.walk(mod.tree):
-            if not (isinstance(n, ast.Name) and n.id in imported
+            # a use of one of the constants, however it was imported
+            # (from .constants import X / from . import constants; constants.X)
+            if not (isinstance(n, (ast.Name, ast.Attribute))
                     and isinstance(n.ctx, ast.Load)):
+                continue
+            if isinstance(parents.get(id(n)), ast.Attribute) and \
+                    parents[id(n)].value is n:
+                continue
+            try:
+                dn = prog.dotted(None, mod, n)
+            except Exception:  # noqa: BLE001
+                dn = None
+            if not (dn and dn.startswith("mokapot.constants.")
+                    and dn.rsplit(".", 1)[1] in consts):
                 continue
             n_uses += 1
             par = parents.get(id(n))
@@ -593,10 +605,11 @@ def _chunk_constants(ctx):
                         parents.get(id(par)), ast.Slice):
                 ok = True  # x[i:i + chunk size]: hand-written chunking
             fq = mod.name
+            cname = dn.rsplit(".", 1)[1]
             ctx.check(ok, "C05e-chunk-constant-use", fq,
-                      f"{n.id} used as a chunk size "
+                      f"{cname} used as a chunk size "
                       f"({mod.relpath}:{n.lineno})",
-                      f"{n.id} {why}: a streaming chunk size influences a "
+                      f"{cname} {why}: a streaming chunk size influences a "
                       "value other than how rows are batched")
     ctx.floor("C05e-constant-uses", n_uses, 12)
 
